@@ -18,6 +18,11 @@ ScriptCc2 == <<{"send"}, {"send"}, {"send"}, {"adv"}, {"ack"}, {"adv"}, {"tick",
 \* handshake: a phase, sends in any space, a pause, then a tick / ACK / discard, and the deadline handling
 ScriptHs == <<{"phase"}, {"send"}, {"send", "phase"}, {"adv"}, {"tick", "acktop", "discard"}, {"tick"}>>
 ScriptHs2 == <<{"phase"}, {"send"}, {"send", "phase"}, {"adv"}, {"tick", "acktop", "discard", "send"}, {"adv"}, {"tick"}>>
+\* four packets, then two rounds of ACK frames / pauses, then the deadline handling or another ACK frame
+ScriptLoss == <<{"send"}, {"send"}, {"send"}, {"send"}, {"ack"}, {"ack", "adv"}, {"tick", "ack"}>>
+ScriptLoss2 == <<{"send"}, {"send"}, {"send"}, {"send"}, {"ack"}, {"ack", "adv"}, {"tick", "ack"}, {"adv"}, {"tick"}>>
+\* consecutive probe timeouts: pauses only up to / just past the armed deadline
+ScriptPto == <<{"phase"}, {"send"}, {"adv"}, {"tick"}, {"adv"}, {"tick"}, {"adv"}, {"tick"}, {"adv"}, {"tick"}>>
 AllFlags == <<<<TRUE, TRUE>>, <<FALSE, TRUE>>, <<FALSE, FALSE>>>>
 Flags == {AllFlags[k] : k \in GFlagSet}
 B(x) == IF x THEN 1 ELSE 0
